@@ -223,6 +223,19 @@ def c08_vacuum(ctx):
         ctx.check('vacuum_mach_positive', m > 0)
     except ZeroDivisionError:
         ctx.check('vacuum_density_zero', False, info={'raised': 'ZeroDivisionError'})
+    # ... and it stays a vacuum whatever public operation the object has been through ("exactly zero everywhere")
+    h = ctx.real('humidity_assigned', 0, 100)
+    v.humidity = h
+    ctx.check_eq('vacuum_density_zero', v.density_ratio, 0, info={'after': 'humidity assigned'})
+    v.update_density_ratio()
+    ctx.check_eq('vacuum_density_zero', v.density_ratio, 0, info={'after': 'update_density_ratio()'})
+    ctx.check_eq('vacuum_density_zero', v.density_metric, 0, info={'after': 'update_density_ratio()', 'field': 'density_metric'})
+    ctx.check_eq('vacuum_density_zero', v.density_imperial, 0, info={'after': 'update_density_ratio()', 'field': 'density_imperial'})
+    try:
+        d, m = v.get_density_factor_and_mach_for_altitude(a)
+        ctx.check_eq('vacuum_density_zero', d, 0, info={'at': 'query', 'after': 'humidity assigned'})
+    except ZeroDivisionError:
+        ctx.check('vacuum_density_zero', False, info={'raised': 'ZeroDivisionError', 'after': 'humidity assigned'})
 
 
 def _cfg_mono(tier):
@@ -276,6 +289,53 @@ def c08_monotone(ctx, var):
             ctx.check('monotone', r2 < r1, info={'var': var})
     finally:
         cond.math = old
+
+
+def _cfg_inputs(tier):
+    out = []
+    for var in ('temperature', 'pressure'):
+        units = {'temperature': ['Fahrenheit', 'Celsius', 'Kelvin', 'Rankin'], 'pressure': ['InHg', 'hPa', 'MmHg', 'PSI']}[var]
+        for u in (units[:2] if tier == 'quick' else units):
+            for bare in (True, False):
+                out.append({'var': var, 'unit': u, 'bare': bare})
+    return out
+
+
+@harness('C08.station_inputs', 'C08', configs=_cfg_inputs, functions=FUNCS, engine_opts={'div_check': False, 'pin_check': True, 'oblig_timeout_ms': 20000},
+         must_reach=['check:station_reports_what_it_was_given', 'check:monotone_through_the_constructor'],
+         bounds='two dry stations built through the public constructor that differ in ONE input (temperature or pressure), the input given as a quantity or as a BARE '
+                'number under the preferred unit (quick: F, C / inHg, hPa), over the whole range including 0 and negative numbers: each station reports the input it was '
+                'given, and the density ratios are ordered the stated way',
+         stubs=['sqrt/exp/pow summarised'])
+def c08_station_inputs(ctx, var, unit, bare):
+    from harness.common import with_preferred, c_of
+    p = pybc()
+    U = getattr(p.Unit, unit)
+    x = ctx.real('value')
+    d = ctx.real('delta', 1e-6, 1000)
+    if var == 'temperature':
+        c1, c2 = c_of(ctx, x, unit), c_of(ctx, x + d, unit)
+        ctx.assume((c1 >= -60) & (c2 <= 60))
+    else:
+        hpa1 = x * (si.PRESSURE_PA[unit] / 100)
+        hpa2 = (x + d) * (si.PRESSURE_PA[unit] / 100)
+        ctx.assume((hpa1 >= 500) & (hpa2 <= 1100))
+
+    def mk(val):
+        with with_preferred(**{var: U}):
+            arg = val if bare else U(val)
+            if var == 'temperature':
+                return p.Atmo(p.Distance.Foot(0), p.Pressure.hPa(1000), arg, 0.0)
+            return p.Atmo(p.Distance.Foot(0), arg, p.Temperature.Celsius(15), 0.0)
+    a1, a2 = mk(x), mk(x + d)
+    for a, val in ((a1, x), (a2, x + d)):
+        got = (a.temperature if var == 'temperature' else a.pressure) >> U
+        ctx.check_eq('station_reports_what_it_was_given', got, val, rel=1e-9, abs=1e-9, info={'var': var, 'unit': unit, 'bare': bare})
+    if var == 'temperature':
+        ctx.check('monotone_through_the_constructor', a2.density_ratio < a1.density_ratio, info={'var': var})
+        ctx.check('monotone_through_the_constructor', a2.mach.raw_value > a1.mach.raw_value, info={'var': var, 'field': 'speed of sound'})
+    else:
+        ctx.check('monotone_through_the_constructor', a2.density_ratio > a1.density_ratio, info={'var': var})
 
 
 def _cfg_bare_alt(tier):
